@@ -22,11 +22,11 @@ def sh(cmd, **kw):
 
 def intake():
     os.makedirs(SEEDED, exist_ok=True)
-    for d in sorted(glob.glob("/tmp/mut_C*/out/*") + glob.glob("/tmp/m2_C*/out/*") + glob.glob("/tmp/m3_C*/out/*")):
-        m = re.match(r"/tmp/(mut|m2|m3)_(C\d+)/out/(\w+)", d)
+    for d in sorted(glob.glob("/tmp/mut_C*/out/*") + glob.glob("/tmp/m2_C*/out/*") + glob.glob("/tmp/m3_C*/out/*") + glob.glob("/tmp/m4_C*/out/*")):
+        m = re.match(r"/tmp/(mut|m2|m3|m4)_(C\d+)/out/(\w+)", d)
         if not m or not os.path.exists(os.path.join(d, "patch.diff")) or not os.path.exists(os.path.join(d, "demo.rs")):
             continue
-        sid = "%s-%s%s" % (m.group(2), {"m2": "r2-", "m3": "r3-"}.get(m.group(1), ""), m.group(3))
+        sid = "%s-%s%s" % (m.group(2), {"m2": "r2-", "m3": "r3-", "m4": "r4-"}.get(m.group(1), ""), m.group(3))
         m = re.match(r"(C\d+)()", m.group(2))
         dst = os.path.join(SEEDED, sid)
         if os.path.exists(os.path.join(dst, "meta.json")):
